@@ -78,8 +78,11 @@ class C05(FCheck):
                 continue
             for k in clamps_for(ev):
                 out.append({"faults": [{"site": s, "clamp": k}], "_call": ev["c"], "_role": ev.get("role")})
-            if ev["c"] == "read":
-                out.append({"faults": [{"site": s, "errno": "EINTR"}], "_call": "read", "_role": ev.get("role")})
+            if ev["c"] in ("read", "pread64", "write", "pwrite64", "copy_file_range"):
+                # an interrupted transfer: nothing was moved, the call may simply be retried
+                out.append({"faults": [{"site": s, "errno": "EINTR"}], "_call": ev["c"], "_role": ev.get("role")})
+            if ev["c"] == "copy_file_range":
+                out.append({"faults": [{"site": s, "errno": "EAGAIN"}], "_call": ev["c"], "_role": ev.get("role")})
         return out
 
     def _retag(self, findings, res, case):
@@ -88,7 +91,7 @@ class C05(FCheck):
         for key in ("cfr", "ficlone", "fiemap", "max_io"):
             if k.get(key) is not None and k.get(key) != "emulate":
                 what.append(key)
-        fired = [x["fired"] + ("-eintr" if x.get("errno") == "EINTR" else "-short") for x in res["stats"].get("faults", []) if x.get("fired")]
+        fired = [x["fired"] + ("-" + x["errno"].lower() if x.get("errno") else "-short") for x in res["stats"].get("faults", []) if x.get("fired")]
         tag = "+".join(sorted(set(fired)) or sorted(what) or ["plain"])
         if case.get("bin") == "xcp-fallback":
             tag += ":fallback-backend"
